@@ -15,6 +15,7 @@ import (
 	"io"
 	"log"
 	"os"
+	"runtime"
 	"runtime/pprof"
 
 	"verifh/ev"
@@ -23,6 +24,14 @@ import (
 func main() {
 	r := ev.Start("C14")
 	log.SetOutput(io.Discard) // the buffer layer logs every (intended) corrupted backend object
+	// Millions of short-lived handler invocations: an untouched ballast keeps the
+	// collector from running every few megabytes (performance only).
+	ballastMiB := 512
+	if v := os.Getenv("C14_BALLAST_MIB"); v != "" {
+		fmt.Sscan(v, &ballastMiB)
+	}
+	ballast := make([]byte, ballastMiB<<20)
+	defer runtime.KeepAlive(ballast)
 	r.Rule("venum: every element of the spaces described per sub-check is executed against the real handlers. Non-trivial = Write: the stream carries >= 2 messages; Read: offset != 0, object not plainly present, read_limit set or a Send fails; batch calls: >= 2 entries (BatchUpdateBlobs: >= 2 distinct entry kinds); FindMissingBlobs: non-empty request against a backend that is neither empty nor full; sequences: >= 2 operations (back-to-back CAS: starting with a Put). All enumerated cases are distinct by construction (cuts are de-duplicated before running).")
 	r.Assume("Write: messages after the first finish_write, and a stream error after it, are don't-care for acceptance (DESIGN 5.3): either OK with exactly the right bytes stored, or an error with nothing stored.")
 	r.Assume("Write: resource names of later messages are not part of the property; they are enumerated (same / different object / empty) only to show they never make anything else visible.")
